@@ -93,10 +93,18 @@ impl PrettyPrint for MechSet {
 }
 
 impl Hash for MechSet {
+  // Two sets are equal whatever the order their elements were inserted in, so the
+  // hash must not depend on that order either: the element hashes are combined
+  // commutatively.
   fn hash<H: Hasher>(&self, state: &mut H) {
+    let mut acc: u64 = 0;
     for x in self.set.iter() {
-      x.hash(state)
+      let mut element_hasher = std::collections::hash_map::DefaultHasher::new();
+      x.hash(&mut element_hasher);
+      acc = acc.wrapping_add(element_hasher.finish());
     }
+    state.write_usize(self.set.len());
+    state.write_u64(acc);
   }
 }
 
